@@ -175,7 +175,7 @@ func verifyFunctionOnce(w *World, specs *Specs, ct *Contract, inst map[string]st
 	for _, k := range axNames {
 		lm := specs.Lemmas[k]
 		env := &SpecEnv{names: map[string]Val{}, pkg: src.Pkg.Types, typeArgs: map[string]types.Type{}}
-		c.axioms = append(c.axioms, f.specBool(&State{gh: map[string]Val{}}, lm.Expr, env))
+		c.qaxioms = append(c.qaxioms, f.specBool(&State{gh: map[string]Val{}}, lm.Expr, env))
 		c.note("axiom (definition of a spec function): " + lm.Name + ": " + lm.Src)
 	}
 	sig := src.Obj.Type().(*types.Signature)
